@@ -15,15 +15,19 @@ MCAsyncOrder == (IF NLua > 0 THEN <<"lua">> ELSE <<>>) \o (IF NAi > 0 THEN <<"ai
 MCBlocksOf   == [a \in {"lua", "ai"} |-> IF a = "lua" THEN [k \in 1..NLua |-> 100 + k] ELSE [k \in 1..NAi |-> 200 + k]]
 MCKindOf     == [a \in {"lua", "ai"} |-> a]
 MCFiles      == {"f1", "f2"}
-MCFileOf     == [b \in {100 + k : k \in 1..NLua} \cup {200 + k : k \in 1..NAi} |-> IF b % 2 = 1 THEN "f1" ELSE "f2"]
+\* the first scripted block lives in f2, the first AI block in f1: with one block each there is a file on which only
+\* an async validator reports while the sync validators report on the other one
+MCFileOf     == [b \in {100 + k : k \in 1..NLua} \cup {200 + k : k \in 1..NAi} |->
+                   IF b < 200 THEN (IF b % 2 = 1 THEN "f2" ELSE "f1") ELSE (IF b % 2 = 1 THEN "f1" ELSE "f2")]
 
 \* a sync validator fails, reports nothing, reports one diagnostic (error or warning) in f1,
-\* or one in f1 and a warning in f2
+\* one in f1 and a warning in f2, or an error in f2 only
 MCSyncOutcomes == [v \in {Names[k] : k \in 1..NSync} |->
    { [st |-> "err"], Ok(Empty),
      Ok([f \in {"f1"} |-> <<D(v, 1, f, 1)>>]), Ok([f \in {"f1"} |-> <<D(v, 1, f, 2)>>]),
      Ok([f \in {"f1", "f2"} |-> IF f = "f1" THEN <<D(v, 1, f, 1)>> ELSE <<D(v, 2, f, 2)>>]),
-     Ok([f \in {"f1", "f2"} |-> IF f = "f1" THEN <<D(v, 1, f, 2)>> ELSE <<D(v, 2, f, 2)>>]) }]
+     Ok([f \in {"f1", "f2"} |-> IF f = "f1" THEN <<D(v, 1, f, 2)>> ELSE <<D(v, 2, f, 2)>>]),
+     Ok([f \in {"f2"} |-> <<D(v, 2, f, 1)>>]) }]
 
 MCMkDiag(a, b, r) == [v |-> a, b |-> b, sev |-> r.sev]
 MCSevOfDiag(d) == d.sev
